@@ -136,6 +136,37 @@ def r2(ctx, retsets):
         ctx.check(good, "C09.R2", "pfx_table_remove_id:record-before-delete", c.loc(),
                   "reported record is a local copy completed before pfx_table_del_elem, table is the own argument",
                   key="C09.R2:pfx_table_remove_id:record")
+    # every field of the reported record is taken from the element / node about to be deleted, inside the same loop round
+    loops_r = fn.loops()
+    for d in dels:
+        inner = [body for h, body in loops_r.items() if d.block.id in body]
+        body = min(inner, key=len) if inner else None
+        rec = None
+        for c in fn.calls(NOTIFY):
+            if fn.dom(d, c):
+                rec = vf.expr(fn, c.args[1])
+        got = {}
+        if rec is not None and body is not None:
+            for i in fn.all_insts():
+                if i.block.id not in body or not fn.dom(i, d):
+                    continue
+                if i.op == "store" and vf.root_of(vf.expr(fn, i["ptr"])) == rec:
+                    got[vf.store_field(i)] = vf.expr(fn, i["val"])
+                if i.op == "call" and (i.callee or "").startswith("llvm.memcpy") and vf.root_of(vf.expr(fn, i.args[0])) == rec:
+                    got[vf.last_field(vf.expr(fn, i.args[0]))] = ("load", vf.expr(fn, i.args[1]))
+
+        def src_ok(f, v):
+            if v is None or v[0] != "load":
+                return False
+            lf = vf.last_field(v[1])
+            return {"pfx_record.asn": "data_elem.asn", "pfx_record.max_len": "data_elem.max_len", "pfx_record.socket": "data_elem.socket",
+                    "pfx_record.prefix": "trie_node.prefix", "pfx_record.min_len": "trie_node.len"}.get(f) == lf
+        want_f = ["pfx_record.asn", "pfx_record.prefix", "pfx_record.min_len", "pfx_record.max_len", "pfx_record.socket"]
+        missing = [f for f in want_f if not src_ok(f, got.get(f))]
+        ctx.check(not missing, "C09.R2", "pfx_table_remove_id:record-fields-per-element", d.loc(),
+                  "all five fields of the reported record are read from the current node and element in the loop round that deletes it"
+                  if not missing else "fields not refreshed from the current node/element before the deletion: %s" % [f.split(".")[1] for f in missing],
+                  key="C09.R2:pfx_table_remove_id:record-fields")
     # pfx_table_free: notify loop over the node's elements precedes the node's removal
     fn = pdb.fn("pfx_table_free")
     ctx.touch(fn)
